@@ -78,6 +78,21 @@ let eres_s = function
   | Err EDivZero -> "err divzero"
   | Crash c -> "crash " ^ crash_name c
 
+(* ---------- plural forms ---------- *)
+let aerr_s = function EOverflow -> "overflow" | EDivZero -> "divzero"
+let pdiag_s = function
+  | DSyntax -> "syntax"
+  | DLeadingJunk j -> "ljunk " ^ out_str j
+  | DTrailingJunk j -> "rjunk " ^ out_str j
+  | DIncorrectN (n, k) -> "incorrect-n " ^ zs n ^ " " ^ zs k
+  | DUnusual -> "unusual"
+  | DCodomainAt (i, fi, n) -> "codomain-at " ^ zs i ^ " " ^ zs fi ^ " " ^ zs n
+  | DArith (i, k) -> "arith " ^ zs i ^ " " ^ aerr_s k
+  | DNever (lo, hi) -> "never " ^ zs lo ^ " " ^ zs hi
+let preimg_s = function
+  | None -> "preimage none"
+  | Some p -> "preimage " ^ String.concat ";" (List.map (fun (k, l) -> zs k ^ ":" ^ String.concat "," (List.map zs l)) p)
+
 (* ---------- dispatch ---------- *)
 let handle (op : string) (a : string array) : string =
   match op with
@@ -92,6 +107,24 @@ let handle (op : string) (a : string array) : string =
     with_expr (arg_n a.(0)) (arg_str a.(2)) (fun e ->
       match period (arg_z a.(1)) e with
       | None -> "ok none" | Some (o, p) -> "ok " ^ zs o ^ " " ^ zs p)
+  | "pfparse" -> (* maxd str *)
+    (match parse_plural_forms (arg_n a.(0)) (arg_str a.(1)) with
+     | Ok (((n, e), l), r) -> "ok " ^ zs n ^ " " ^ expr_to_string e ^ " " ^ out_str l ^ " " ^ out_str r
+     | Err _ -> "err syntax"
+     | Crash c -> "crash " ^ crash_name c)
+  | "plurals" -> (* maxd has_plurals nexp exp... ncorrect(-1 = None) correct... value *)
+    let maxd = arg_n a.(0) in
+    let hp = arg_bool a.(1) in
+    let nexp = arg_int a.(2) in
+    let exps = List.init nexp (fun i -> arg_z a.(3 + i)) in
+    let nc = arg_int a.(3 + nexp) in
+    let base = 4 + nexp in
+    let correct = if nc < 0 then None else Some (List.init nc (fun i -> arg_str a.(base + i))) in
+    let value = arg_str a.(base + (max nc 0)) in
+    (match check_plurals_core maxd { pf_value = value; pf_has_plurals = hp; pf_expected = exps; pf_correct = correct } with
+     | Ok (ds, pre) -> String.concat " | " (List.map pdiag_s ds @ [preimg_s pre])
+     | Err _ -> "crash PluralFormsSyntaxError"
+     | Crash c -> "crash " ^ crash_name c)
   | _ -> "unknown-op " ^ op
 
 let () =
